@@ -95,7 +95,9 @@ impl Peer {
     ) -> Result<Peer, String> {
         std::fs::create_dir_all(&folder).unwrap();
         let key_material = key_material_for(user);
-        let public_key = derive_key("verif public key", &key_material);
+        // the meeting public key, derived as Discret::new does
+        let meeting_secret = vh::security::MeetingSecret::new(derive_key(&format!("{}{}", "MEETING_SECRET", APP_KEY), &key_material));
+        let public_key: [u8; 32] = *meeting_secret.public_key().as_bytes();
         let events = EventService::new();
         let (db, vkey, private_room) = GraphDatabaseService::start(
             APP_KEY,
